@@ -63,3 +63,59 @@ package action
 //@   ensures [stamped] result == nil ==> owned(info.Object, releaseName, releaseNamespace)
 //@   ensures [no-takeover] result == nil && !force ==> old(owned(info.Object, releaseName, releaseNamespace))
 //@   ensures [error-passthrough] err != nil ==> result == err
+
+// ---- C12: hooks (hooks.go)
+
+//@ ghost func hasPolicy(h *release.Hook, policy release.HookDeletePolicy) bool = exists j int :: 0 <= j && j < len(h.DeletePolicies) && h.DeletePolicies[j] == policy
+//@ ghost func hasEvent(h *release.Hook, ev release.HookEvent) bool = exists j int :: 0 <= j && j < len(h.Events) && h.Events[j] == ev
+//@ ghost func hooksNonNil(hs []*release.Hook) bool = forall j int :: 0 <= j && j < len(hs) ==> hs[j] != nil
+//@ ghost func weightOrdered(hs []*release.Hook) bool = forall a, b int :: 0 <= a && a < b && b < len(hs) ==> hs[a].Weight < hs[b].Weight || (hs[a].Weight == hs[b].Weight && hs[a].Name <= hs[b].Name)
+
+//@ func hookByWeight.Less
+//@   props C12
+//@   requires 0 <= i && i < len(x) && 0 <= j && j < len(x) && x[i] != nil && x[j] != nil
+//@   ensures result <==> (x[i].Weight < x[j].Weight || (x[i].Weight == x[j].Weight && x[i].Name < x[j].Name))
+
+//@ func hookHasDeletePolicy
+//@   props C12
+//@   requires h != nil
+//@   ensures [iff] result <==> hasPolicy(h, policy)
+//@   loop 1 invariant forall j int :: 0 <= j && j < #iter ==> h.DeletePolicies[j] != policy
+
+//@ func (*Configuration).deleteHookByPolicy
+//@   props C12
+//@   requires cfg != nil && h != nil && cfg.KubeClient != nil
+//@   ensures [crd-never] h.Kind == "CustomResourceDefinition" ==> Kdeleted == old(Kdeleted) && result == nil
+//@   ensures [only-by-policy] !hasPolicy(h, policy) ==> Kdeleted == old(Kdeleted) && result == nil
+//@   ensures [only-own] Kdeleted == old(Kdeleted) || Kdeleted == store(old(Kdeleted), h.Manifest, true)
+//@   ensures [deleted-when-policy] result == nil && hasPolicy(h, policy) && h.Kind != "CustomResourceDefinition" ==> Kdeleted[h.Manifest]
+//@   ensures [hooks-not-started] Kunwatched == old(Kunwatched) && Kcreated == old(Kcreated)
+
+//@ func (*Configuration).deleteHooksByPolicy
+//@   props C12
+//@   requires cfg != nil && cfg.KubeClient != nil && hooksNonNil(hooks)
+//@   ensures [all] result == nil ==> forall j int :: 0 <= j && j < len(hooks) && hasPolicy(hooks[j], policy) && hooks[j].Kind != "CustomResourceDefinition" ==> Kdeleted[hooks[j].Manifest]
+//@   ensures [hooks-not-started] Kunwatched == old(Kunwatched) && Kcreated == old(Kcreated)
+//@   ensures [monotone] forall m string :: old(Kdeleted)[m] ==> Kdeleted[m]
+//@   loop 1 invariant forall j int :: 0 <= j && j < #iter && hasPolicy(hooks[j], policy) && hooks[j].Kind != "CustomResourceDefinition" ==> Kdeleted[hooks[j].Manifest]
+//@   loop 1 invariant Kunwatched == old(Kunwatched) && Kcreated == old(Kcreated)
+//@   loop 1 invariant forall m string :: old(Kdeleted)[m] ==> Kdeleted[m]
+
+//@ func (*Configuration).execHook
+//@   props C12
+//@   requires cfg != nil && cfg.KubeClient != nil && rl != nil && hooksNonNil(rl.Hooks)
+//@   requires [none-in-flight] forall m string :: !Kunwatched[m]
+//@   ensures [gate] result == nil ==> forall m string :: !Kunwatched[m]
+//@   loop 1 invariant [sel] hooksNonNil(executingHooks) && (forall j int :: 0 <= j && j < len(executingHooks) ==> hasEvent(executingHooks[j], hook))
+//@   loop 1 invariant [quiet1] forall m string :: !Kunwatched[m]
+//@   loop 1 invariant [src] hooksNonNil(rl.Hooks)
+//@   loop 2 invariant [sel] hooksNonNil(executingHooks) && (forall j int :: 0 <= j && j < len(executingHooks) ==> hasEvent(executingHooks[j], hook))
+//@   loop 2 invariant [quiet2] forall m string :: !Kunwatched[m]
+//@   loop 2 invariant [h] h != nil
+//@   loop 3 invariant [nonnil] hooksNonNil(executingHooks)
+//@   loop 3 invariant [selected] forall j int :: 0 <= j && j < len(executingHooks) ==> hasEvent(executingHooks[j], hook)
+//@   loop 3 invariant [weight-order] weightOrdered(executingHooks)
+//@   loop 3 invariant [one-at-a-time] forall m string :: !Kunwatched[m]
+//@   loop 3 invariant [default-policy] forall j int :: 0 <= j && j < #iter ==> len(executingHooks[j].DeletePolicies) > 0
+//@   loop 4 invariant [quiet4] forall m string :: !Kunwatched[m]
+//@   loop 4 invariant [nonnil4] hooksNonNil(executingHooks) && i < len(executingHooks)
